@@ -3,7 +3,8 @@ import Afkak.Monitor.C04
 # C04, the other direction: arguments the encoder MUST accept
 
 `must… = true` says: the caller's values are ones the grammar can carry (every integer fits its field,
-every string its length prefix), the names afkak encodes with `.encode("ascii")` are ASCII, and no
+every string its length prefix), the names afkak encodes with `.encode("ascii")` (topic names, whose
+legal characters are `[a-zA-Z0-9._-]`, and assignor protocol names; group and member ids are UTF-8) are ASCII, and no
 (topic, partition) is named twice.  The theorems `C04_*_total` / `C04_must_encode` prove that the
 model of the encoder then writes a frame (and the monitor's verdict on it is `ok`); the harness
 evaluates these predicates whenever the REAL encoder refused an argument list — a refusal of a list
@@ -51,7 +52,7 @@ def mustOffsetFetch (clientId : Bytes) (corr : Int) (group : Option Bytes) (payl
     decide ((payloads.map (fun p => (p.topic, p.partition))).Nodup)
     && (Spec.request Spec.offsetFetchRequest).valid
         (hdr 9 1 corr clientId, g, (regroup l).map (fun e => (e.1, e.2.map (·.1))))
-    && isAscii g && asciiTopics (regroup l)
+    && asciiTopics (regroup l)
   | _, _ => false
 
 def mustOffsetCommit (clientId : Bytes) (corr : Int) (group : Option Bytes) (generationId : Int)
@@ -61,7 +62,7 @@ def mustOffsetCommit (clientId : Bytes) (corr : Int) (group : Option Bytes) (gen
   | some g, some c, some l =>
     decide ((payloads.map (fun p => (p.topic, p.partition))).Nodup)
     && (Spec.request Spec.offsetCommitRequest).valid (hdr 8 1 corr clientId, g, generationId, c, regroup l)
-    && isAscii g && isAscii c && asciiTopics (regroup l)
+    && asciiTopics (regroup l)
   | _, _, _ => false
 
 def mustMetadata (clientId : Bytes) (corr : Int) (topics : List (Option Bytes)) : Bool :=
@@ -71,7 +72,7 @@ def mustMetadata (clientId : Bytes) (corr : Int) (topics : List (Option Bytes)) 
 
 def mustFindCoordinator (clientId : Bytes) (corr : Int) (group : Option Bytes) : Bool :=
   match group with
-  | some g => (Spec.request Spec.findCoordinatorRequest).valid (hdr 10 0 corr clientId, g) && isAscii g
+  | some g => (Spec.request Spec.findCoordinatorRequest).valid (hdr 10 0 corr clientId, g)
   | none => false
 
 def mustJoinGroup (clientId : Bytes) (corr : Int) (p : JoinGroupReq) : Bool :=
